@@ -410,6 +410,17 @@ pub fn run(out_path: &str, tier: &str) {
 			}
 		}
 	}
+	// lengths around the limits other specifications put on names (63-octet labels, 253 / 255-octet host names, 256, 1000):
+	// the string types have no length limit, and a value they accept serialises wherever it can be placed
+	for (i, len) in [63usize, 64, 127, 128, 253, 254, 255, 256, 300, 1000].iter().enumerate() {
+		let host: String = (0..*len).map(|k| if k % 40 == 39 { '.' } else { (b'a' + (k % 26) as u8) as char }).collect();
+		let case = format!("str-place-long/{}", i);
+		for w in ["dn", "san-rfc822", "san-dns", "san-uri"] {
+			place("ia5", w, &host, &key, &case, &mut out);
+		}
+		place("printable", "dn", &host, &key, &case, &mut out);
+		place("utf8", "dn", &host, &key, &case, &mut out);
+	}
 	// UTF8String values in names: random scalar values
 	for i in 0..(if tier == "quick" { 100 } else { 3000 }) {
 		let text = random_text("utf8", &mut rng, 10);
